@@ -17,6 +17,20 @@ const auto& min_reduce(const std::vector<taccumulator>& accumulators)
 }
 
 ///
+/// \brief min-reduce the given set of accumulators (e.g. per thread) using the `m_score` attribute
+///     and the smallest `m_feature` attribute to break the ties,
+///     so that the selected feature doesn't depend on how the features were assigned to the accumulators (e.g. threads).
+///
+template <class taccumulator>
+const auto& min_reduce_feature(const std::vector<taccumulator>& accumulators)
+{
+    const auto op = [](const taccumulator& one, const taccumulator& other)
+    { return one.m_score < other.m_score || (one.m_score == other.m_score && one.m_feature < other.m_feature); };
+    const auto it = std::min_element(accumulators.begin(), accumulators.end(), op);
+    return *it;
+}
+
+///
 /// \brief map-reduce the given set of accumulators (e.g. per thread) into the first accumulator.
 ///
 template <class taccumulator>
